@@ -117,7 +117,7 @@ fn run_case(cfg: &Value, case: &Value, ln: usize) -> (Vec<Mismatch>, Value, Vec<
     let cap = cfg["cap"].as_u64().unwrap() as usize;
     let (sender, receiver) = emit_batcher::bounded::<Vec<i64>>(cap);
     // the receiver's own view of the channel metrics (it also survives the last Sender)
-    let recv_metrics = receiver.metric_source();
+    let recv_metrics = Arc::new(receiver.metric_source());
     let sender = Arc::new(sender);
     let mut handles = Vec::new();
     let mut mism: Vec<Mismatch> = Vec::new();
@@ -605,9 +605,27 @@ fn run_case(cfg: &Value, case: &Value, ln: usize) -> (Vec<Mismatch>, Value, Vec<
         // metrics
         // (through the Sender while it exists and through the Receiver's handle always: both must
         // report the specification's counters)
-        let mut views: Vec<(&str, BTreeMap<String, u64>)> = vec![("receiver", sample_source(&recv_metrics))];
-        if let Some(s) = sender_opt.as_ref() {
-            views.push(("sender", sample_metrics(s)));
+        // (on helper threads under the watchdog: a sample takes the channel's lock, and a thread of the schedule that is
+        // parked INSIDE a critical section would hang the driver itself)
+        let mut views: Vec<(&str, BTreeMap<String, u64>)> = Vec::new();
+        let rm = recv_metrics.clone();
+        match with_watchdog(move || sample_source(&*rm)) {
+            Some(v) => views.push(("receiver", v)),
+            None => {
+                mism.push(Mismatch { class: "prop", step: steps.len(), what: format!("sampling the receiver's metric source did not return within {STEP_TIMEOUT:?} (hang)") });
+                hung = true;
+            }
+        }
+        if !hung {
+            if let Some(s) = sender_opt.clone() {
+                match with_watchdog(move || sample_metrics(&s)) {
+                    Some(v) => views.push(("sender", v)),
+                    None => {
+                        mism.push(Mismatch { class: "prop", step: steps.len(), what: format!("sampling the sender's metric source did not return within {STEP_TIMEOUT:?} (hang)") });
+                        hung = true;
+                    }
+                }
+            }
         }
         for (view, got) in views {
             let want = &fin["metrics"];
@@ -682,6 +700,15 @@ fn run_case(cfg: &Value, case: &Value, ln: usize) -> (Vec<Mismatch>, Value, Vec<
         }
     }
     (mism, json!(trace), atrace)
+}
+
+/// Run `f` on a helper thread; None when it does not return within the step timeout (the thread is leaked).
+fn with_watchdog<R: Send + 'static>(f: impl FnOnce() -> R + Send + 'static) -> Option<R> {
+    let (tx, rx) = std::sync::mpsc::channel();
+    std::thread::spawn(move || {
+        let _ = tx.send(f());
+    });
+    rx.recv_timeout(STEP_TIMEOUT).ok()
 }
 
 fn sample_metrics(sender: &emit_batcher::Sender<Vec<i64>>) -> BTreeMap<String, u64> {
